@@ -177,6 +177,13 @@ Definition sem_cpp (tok : text) (a b : cval) : option bool :=
       end
   end.
 
+(** Lengths. [len(x)] is emitted as [x.size()], a [std::size_t] (unsigned, 64 bits here).
+    In [size() - 1] and in a comparison of a [size_t] with an [int64_t] the usual arithmetic
+    conversions turn both operands into unsigned 64-bit numbers (C++17 [expr]/11): the result
+    is taken modulo 2^64. Python computes on integers. *)
+Definition wrap64 (z : Z) : Z := z mod 18446744073709551616.
+Definition cpp_len_cmp (op : cmpop) (l r : Z) : bool := z_cmp op (wrap64 l) (wrap64 r).
+
 (** * Java *)
 
 (** A Java operand is a primitive (literals, [size()], [length()], results of
@@ -246,8 +253,8 @@ Definition sem_java (tok : text) (a b : jval) : option bool :=
 
 (** [java.util.Objects.equals(a, b)] on two references: [a.equals(b)], which for
     [String], [Long], [Float], [Boolean] compares the class and the value, and for enum
-    constants the identity. (Both operands are non-null: the transpiler unwraps optionals
-    under a presence check.) Primitive operands never reach these templates. *)
+    constants the identity (operands assumed non-null). This is what a by-value comparison of
+    two references would compute; the transpiler as it is does not emit it. *)
 Definition jobj_equals (a b : jobj) : bool :=
   match a, b with
   | OLong x, OLong y => Z.eqb x y
